@@ -1,5 +1,6 @@
 import AikenVerif.Props.C10
 import AikenVerif.Lemmas.ExpMod
+import AikenVerif.Lemmas.Bits
 /-!
 # C04 — builtins compute their specified function on their whole domain: property theorems
 
@@ -480,5 +481,94 @@ example : callBuiltin .E .expModInteger [I 3, I 5, I 7] = .ok (I (3 ^ (5 : Int).
     (by unfold expModBound; decide +kernel) (by unfold expModBound; decide +kernel) (by unfold expModBound; decide +kernel)
 example : modularInverse 3 7 = some 5 ∧ modularInverse 2 4 = none := by
   constructor <;> rfl
+
+-- ------------------------------------------------------------------ bit-level builtins
+theorem rotate_core (sem : Sem) (bs : Bytes) (k : Int) (hk : sem = .E → fitsI64 k = true) :
+    callBuiltinCore sem .rotateByteString [BS bs, I k] = .ok (.con (.bytestring (rotl bs k))) := by
+  simp only [callBuiltinCore, getArgB, List.getElem?_cons_zero, List.getElem?_cons_succ,
+    Value.unwrapInteger, Value.unwrapByteString, bind, Res.bind, pure]
+  have : ¬ ((sem == .E) = true ∧ (!fitsI64 k) = true) := by
+    intro ⟨h1, h2⟩
+    have := hk (by simpa using h1)
+    simp [this] at h2
+  simp only [Bool.and_eq_true, this, if_false, rotl, rotBits]
+  by_cases he : bs.isEmpty <;> simp [he]
+
+/-- `rotateByteString` is the bit rotation `rotl` (any amount, reduced modulo the bit length) -/
+theorem rotate_spec (sem : Sem) (bs : Bytes) (k : Int) (hk : sem = .E → fitsI64 k = true) :
+    callBuiltin sem .rotateByteString [BS bs, I k] = .ok (BS (rotl bs k)) :=
+  callBuiltin_of_core_con (rotate_core sem bs k hk)
+
+/-- under variant E an amount outside the 64-bit range is an evaluation failure -/
+theorem rotate_rejects_beyond_i64 (bs : Bytes) (k : Int) (hk : fitsI64 k = false) :
+    callBuiltin .E .rotateByteString [BS bs, I k] = .err := by
+  simp [callBuiltin, callBuiltinCore, getArgB, Value.unwrapInteger, Value.unwrapByteString, bind, Res.bind, hk]
+
+/-- rotating by `k` and then by `-k` restores the byte string — for every byte string and EVERY amount
+the variant accepts; the result always has the length of the input -/
+theorem rotate_inverse (sem : Sem) (bs : Bytes) (k : Int)
+    (hk : sem = .E → fitsI64 k = true ∧ fitsI64 (-k) = true) :
+    ∃ r, callBuiltin sem .rotateByteString [BS bs, I k] = .ok (BS r) ∧ r.length = bs.length ∧
+      callBuiltin sem .rotateByteString [BS r, I (-k)] = .ok (BS bs) := by
+  refine ⟨rotl bs k, rotate_spec sem bs k (fun h => (hk h).1), rotl_length bs k, ?_⟩
+  rw [rotate_spec sem (rotl bs k) (-k) (fun h => (hk h).2), rotl_inverse]
+
+/-- a bit written by `writeBits` is the bit `readBit` returns at that index (index 0 = least
+significant bit of the LAST byte), for every in-range index -/
+theorem writeBits_readBit (sem : Sem) (v : Bool) (bs : Bytes) (i : Int) (h0 : 0 ≤ i)
+    (h1 : i < (bs.length * 8 : Nat)) :
+    ∃ bs', callBuiltin sem .writeBits [BS bs, .con (.list .integer [.integer i]), .con (.bool v)] = .ok (BS bs') ∧
+      bs'.length = bs.length ∧
+      callBuiltin sem .readBit [BS bs', I i] = .ok (.con (.bool v)) := by
+  obtain ⟨bs', hw, hl, byte, hb, hv⟩ := writeBit_then_readBit v bs i h0 h1
+  refine ⟨bs', ?_, hl, ?_⟩
+  · apply callBuiltin_of_core_con
+    simp [callBuiltinCore, getArgB, Value.unwrapByteString, Value.unwrapIntList, Value.unwrapBool, bind, Res.bind, hw, pure]
+  · apply callBuiltin_of_core_con
+    have hne : bs'.isEmpty = false := by
+      cases bs' with
+      | nil => simp at hl; omega
+      | cons _ _ => rfl
+    have hc : 0 ≤ i ∧ i < (bs'.length : Int) * 8 := by rw [hl]; omega
+    simp [callBuiltinCore, getArgB, Value.unwrapByteString, Value.unwrapInteger, bind, Res.bind, pure, hne, hc, hb, hv]
+
+/-- and indices outside `0 ≤ i < 8·length` are failures of both builtins, never a crash -/
+theorem bit_index_out_of_range (sem : Sem) (v : Bool) (bs : Bytes) (i : Int)
+    (h : i < 0 ∨ i ≥ (bs.length * 8 : Nat)) :
+    callBuiltin sem .writeBits [BS bs, .con (.list .integer [.integer i]), .con (.bool v)] = .err ∧
+    callBuiltin sem .readBit [BS bs, I i] = .err := by
+  have h : i < 0 ∨ (bs.length : Int) * 8 ≤ i := by omega
+  constructor
+  · simp [callBuiltin, callBuiltinCore, getArgB, Value.unwrapByteString, Value.unwrapIntList, Value.unwrapBool, bind, Res.bind,
+      writeBitsLoop, h]
+  · by_cases he : bs.isEmpty
+    · simp [callBuiltin, callBuiltinCore, getArgB, Value.unwrapByteString, Value.unwrapInteger, bind, Res.bind, he]
+    · simp [callBuiltin, callBuiltinCore, getArgB, Value.unwrapByteString, Value.unwrapInteger, bind, Res.bind, he, h]
+
+/-- `shiftByteString`: by 0 it is the identity; by the bit length or more (either direction, any
+size the variant accepts) every bit is shifted out; the length never changes -/
+theorem shift_zero_and_out_of_range (sem : Sem) (bs : Bytes) :
+    callBuiltin sem .shiftByteString [BS bs, I 0] = .ok (BS bs) ∧
+    (∀ k : Int, (sem = .E → fitsI64 k = true) → (bs.length * 8 : Nat) ≤ k.natAbs →
+      callBuiltin sem .shiftByteString [BS bs, I k] = .ok (BS (List.replicate bs.length 0))) := by
+  constructor
+  · apply callBuiltin_of_core_con
+    by_cases he : bs.length = 0
+    · have : bs = [] := List.length_eq_zero_iff.mp he
+      subst this
+      cases sem <;> rfl
+    · have h1 : ¬ ((sem == .E) = true ∧ (!fitsI64 0) = true) := by simp [fitsI64]
+      have h2 : ¬ (bs.length * 8 ≤ (0 : Int).natAbs) := by simp; omega
+      simp only [callBuiltinCore, getArgB, List.getElem?_cons_zero, List.getElem?_cons_succ,
+        Value.unwrapInteger, Value.unwrapByteString, bind, Res.bind, pure, Bool.and_eq_true, h1, h2, if_false]
+      simp [Bytes'.ofBits_toBits]
+  · intro k hk hle
+    apply callBuiltin_of_core_con
+    have h1 : ¬ ((sem == .E) = true ∧ (!fitsI64 k) = true) := by
+      intro ⟨a, b⟩
+      have := hk (by simpa using a)
+      simp [this] at b
+    simp only [callBuiltinCore, getArgB, List.getElem?_cons_zero, List.getElem?_cons_succ,
+      Value.unwrapInteger, Value.unwrapByteString, bind, Res.bind, pure, Bool.and_eq_true, h1, hle, if_false, if_true]
 
 end AikenVerif.C04
